@@ -2139,10 +2139,27 @@ impl ty::TyExpression {
                 // type_check_analyze unification will give the final error
                 let type_check_handler = Handler::default();
                 let result = Self::type_check(&type_check_handler, ctx, expr)
-                    .unwrap_or_else(|err| ty::TyExpression::error(err, span, engines));
+                    .unwrap_or_else(|err| ty::TyExpression::error(err, span.clone(), engines));
 
                 if let TypeInfo::ErrorRecovery(_) = &*engines.te().get(result.return_type) {
                     handler.append(type_check_handler);
+                } else {
+                    // Only the mismatch between the element itself and the expected element
+                    // type is reported later, by the unification in type_check_analyze.
+                    // Every other error found inside of the element (e.g., in the condition
+                    // of an `if` element) must not get lost.
+                    let (errors, _warnings, _infos) = type_check_handler.consume();
+                    for err in errors {
+                        let is_element_mismatch = matches!(
+                            &err,
+                            CompileError::TypeError(
+                                sway_error::type_error::TypeError::MismatchedType { span: err_span, .. }
+                            ) if *err_span == span
+                        );
+                        if !is_element_mismatch {
+                            handler.emit_err(err);
+                        }
+                    }
                 }
 
                 result
